@@ -23,7 +23,7 @@ _ASSUME = ["the compiled ProposalStore on ethermint's EVM behaves as the abstrac
 PROPS = {
     "C20": dict(
         suite="govshuttle",
-        modules=["CantoVerif.Props.C20"],
+        modules=["CantoVerif.Props.C20", "CantoVerif.Props.AbiRoundTrip"],
         theorems=[
             "CV.later_failure_unchanged",
             "CV.Govshuttle.stored_faithfully", "CV.Govshuttle.stored_faithfully_wellformed", "CV.Govshuttle.treasury_field_placement",
@@ -38,11 +38,16 @@ PROPS = {
             "CV.Govshuttle.rejected_no_effect", "CV.Govshuttle.length_mismatch_rejected_no_effect",
             "CV.Govshuttle.bad_denom_rejected_no_effect", "CV.Govshuttle.wrong_authority_rejected_no_effect",
             "CV.Govshuttle.foreign_rejected",
+            # Model/Abi.lean + Props/AbiRoundTrip.lean: the Solidity contract ABI (head/tail encoding) for uint256, address, bytes, string,
+            # T[] and tuples at any nesting; decode (encode v) = v for every well-typed value, encodings injective. Tied to the compiled
+            # contract on the real EVM: the raw QueryProp answer of every record of at most 1536 bytes is compared byte for byte
+            "CV.Abi.decode_encode", "CV.Abi.decode_encode_append", "CV.Abi.decodeTuple_encodeTuple", "CV.Abi.decodeCall_encodeCall",
+            "CV.Abi.encode_injective", "CV.Abi.encodeTuple_injective", "CV.Abi.encode_length_mod32", "CV.Abi.encode_wf",
             "CV.Govshuttle.storeWF_step", "CV.Govshuttle.storeWF_run", "CV.Govshuttle.query_eq_slot",
             "CV.Govshuttle.monitors_hold_ok", "CV.Govshuttle.monitors_hold_rej",
             "CV.Govshuttle.stored_on_evm_partial",
         ],
-        comps={"outcome", "port", "nonce", "next", "store", "bank"},
+        comps={"outcome", "port", "nonce", "next", "store", "bank", "abi"},
         assumptions=_ASSUME,
     ),
 }
